@@ -23,26 +23,26 @@ CHECKS = {
     "C05": ("other", "Partial: Lean theorem planted_recovered (if the planted column is the strict arg-max whenever undecided and passes its forward and backward tests, the output contains the edge with exactly its variable and lag, for any behaviour of all other candidates) + check that premise=>conclusion holds in every instrumented real run; the recovery FREQUENCY (>=98% / >=75%) is estimator power on random data and is decided only by an exact binomial lower-tail measurement (budget 1e-9).",
             "The distribution of estimator values on random data cannot be exhibited by a model; stated as measurement.",
             "Lean 4 conditional-recovery theorem + binomial measurement"),
-    "C06": ("proof", "Lean theorems for every series/estimator/stream/LASSO oracle in range: nodes = range n, edges join nodes, 1<=lag<=L, p=k/n_shuffles with k<=n, no duplicate (source,target,lag), cmi never finite-negative given C09's floor, rejects (NotImplementedError / ValueError iff T<=L+2, the only errors). Guard lists regenerated from the AST each run (obligation). Tie: real discover_network on ndarray/DataFrame, int/float, constant/duplicated columns vs the model graph given recorded oracles; byte comparison of the caller's object.",
-            "Node naming and 'input untouched' are runtime facts checked by the harness, not theorems.",
+    "C06": ("proof", "Lean theorems for every series/estimator/stream/LASSO oracle in range: nodes = range n, edges join nodes, 1<=lag<=L, p=k/n_shuffles with k<=n, no duplicate (source,target,lag), cmi never finite-negative given C09's floor, rejects (NotImplementedError / ValueError iff T<=L+2, the only errors); LASSO selections modelled as selOfCoef (indices of non-zero coefficients: in range, strictly increasing, duplicate-free — lassoOK_of_coef) with the LassoLarsIC/plain-Lasso branch condition. Guard lists regenerated from the AST each run (obligation). Tie: real discover_network on ndarray/DataFrame, int/float, constant/duplicated columns vs the model graph given recorded oracles; sklearn fits spied (coefficient vector -> model selection, branch taken); byte comparison of the caller's object.",
+            "Node naming and 'input untouched' are runtime facts checked by the harness, not theorems; the LASSO coefficient vector itself is scikit-learn's (input to the model).",
             "Lean 4 proof + AST-regenerated guard tables + differential correspondence"),
-    "C07": ("proof", "Thin by design: the model needs no state (history_independent, globals_untouched are immediate); presentation_independent has content (the result depends on the series only through its entries in the window). All assurance that the implementation is such a function comes from the tie: recorded generator stream must equal a fresh default_rng(42) stream consumed in model order; histories of interleaved calls / reseeded global RNGs / plotting; global RNG states compared before/after; presentations ndarray C/F, lists, DataFrame, int vs float.",
+    "C07": ("proof", "Thin by design: the model needs no state (history_independent, globals_untouched are immediate); presentation_independent has content (the result depends on the series only through its entries in the window). All assurance that the implementation is such a function comes from the tie: recorded generator stream must equal a fresh default_rng(42) stream consumed in model order; histories of interleaved calls / reseeded global RNGs / plotting; global RNG states compared before/after; presentations ndarray C/F, lists, DataFrame, int vs float; fresh-process probes, estimator warm-up histories on other data, buffers refilled in place, short-wide plain-Lasso branch. A genuine defect found this way (plain-Lasso fall-back advanced NumPy's global generator) is repaired by fix: commit ca4e9f7.",
             "A pure model cannot exhibit hidden state; the history-differential tie is what decides the property.",
             "Lean 4 (thin) + history/presentation differential testing against the model"),
     "C08": ("proof", "Lean theorems over Q with Mathlib's determinant (bridge detF = Matrix.det): ratio_cov, X<->Y symmetry, chain rule at the level of correlation determinants, scalar form 1/(1-r^2), invariance under per-column affine maps, row permutation; estimator = 1/2 log ratio. Tie: real gaussian (conditional) MI and dispatcher vs 1/2 log of the exact rational ratio (1e-8 abs + 1e-8 rel), LS-residual reference, sentinel/degenerate branches.",
-            "log and float rounding are outside the theorems (tolerance). General non-negativity needs Fischer's inequality (nonneg_partial).",
+            "log and float rounding are outside the theorems (tolerance). Non-negativity is proved for scalar X,Y (nonneg_partial, Cauchy-Schwarz after the Schur-complement identity schur/resid_cov); the general block case needs Fischer's inequality.",
             "Lean 4 proof (Mathlib determinants) + exact-rational reference evaluation"),
     "C09": ("proof", "The dispatch tables are REGENERATED from the Python AST every run and checked by `decide` against tableOK; Lean theorems for every table passing the check: dispatch_value (documented estimator evaluated, every accepted setting is the caller's, with and without Z), dispatch_floor, non-finite pass-through, kde alias, unknown name raises. Independent spy-based tie: dispatcher value vs max(0, direct call with explicit settings) bit-for-bit over the cross product of names/paths/settings, planted nan/inf/negative returns.",
             "Translator (ast pattern matching) trusted, cross-checked against spied behaviour. One open known finding (geometric-kNN Z=None path drops k/metric).",
             "Translator-regenerated Lean obligation (decide) + spy-based differential check"),
-    "C10": ("proof", "Lean theorems: kNN MI/CMI invariant under joint row permutation, X<->Y swap and Z column permutation (exact over Q), Gaussian ratio invariant under row permutation / swap / column order, KDE entropies invariant for uninterpreted exp/log. Tie: metamorphic check on the real functions (all estimators, conditional and unconditional paths, row permutations, all Z column permutations, swap) at 1e-9 relative, purity (equal arguments equal results, arguments unmodified).",
-            "Geometric-kNN row permutation relies on the local-correction functional (hypothesis). One open known finding (Poisson conditional path).",
+    "C10": ("proof", "Lean theorems: kNN MI/CMI invariant under joint row permutation, X<->Y swap and Z column permutation (exact over Q), Gaussian ratio invariant under row permutation / swap / column order, KDE entropies invariant for uninterpreted exp/log; Poisson unconditional MI: closed form over the entropy vector, invariant under variable permutation / swap / column order for ANY entropy function, with poissonMI_symm_needed showing the conditional path's asymmetry is real; geometric-kNN MI/CMI: row permutation proved, swap / Z-column order proved given rotation-invariance of the local correction (…_partial). Tie: Poisson unconditional path also compared with the model value;  metamorphic check on the real functions (all estimators, conditional and unconditional paths, row permutations, all Z column permutations, swap) at 1e-9 relative, purity (equal arguments equal results, arguments unmodified).",
+            "Geometric-kNN swap/column-order theorems take invariance of the SVD-based local correction under coordinate permutations as hypothesis (checked numerically by C12). One open known finding (Poisson conditional path).",
             "Lean 4 invariance proofs + metamorphic testing of the implementation"),
     "C11": ("proof", "Lean theorems over Q: psi_free (for ANY psi with the digamma recurrence the KSG MI/CMI equal gamma-free harmonic-number forms), code_eq_spec (sort-whole-row/index-k/count-minus-one = k-th nearest OTHER sample / count of OTHER samples strictly inside, under tie-freeness, which is forced). KDE: definition = documented formula (thin), signed sums. Tie: exact rational value vs float result (1e-9) with near-tie filter; KDE Float evaluation of the same polymorphic definition vs sklearn-based implementation.",
             "digamma at integers = harmonic numbers (recurrence hypothesis; scipy trusted); sklearn KernelDensity bandwidth rules mirrored; float rounding by tolerance.",
             "Lean 4 proof + exact-rational brute-force evaluation"),
-    "C12": ("other", "Partial: reference evaluation of the published formula by an independent implementation, and the four laws (translation, rotation, d*log a scaling, sample order) checked directly on the real function with the predicted deltas; kNN-term scaling law proved in Lean; invariance of the SVD-based local correction is a hypothesis (Mathlib has no packaged singular-value invariance).",
-            "LAPACK SVD is runtime behaviour outside the model.",
+    "C12": ("other", "Partial: Lean theorems over an abstract local-correction functional: translation, rotation (orthogonal maps preserve squared distances and neighbour sets), scaling by a>0 (H shifts by d*log a; rho and neighbour order scale), row permutation, MI/CMI definitions and clamp (geom_laws_partial: the four laws hold for every correction functional that is itself translation/rotation/scale-covariant). Tie: independent reference evaluation of the published formula (own one-sided Jacobi SVD, no LAPACK) vs the real function; the four laws checked directly on the real function with the predicted deltas; the seam between neighbour search and local correction spied and compared with the model's neighbour sets; distance matrices overwritten in place between calls.",
+            "LAPACK SVD and the covariance of singular values under rigid motions are runtime/numerical facts outside the theorems (Mathlib has no packaged singular-value invariance): checked numerically against the Jacobi reference.",
             "Partial Lean proof + independent reference evaluation + metamorphic laws"),
     "C13": ("proof", "Lean theorems for any ordered field and abstract pmf: loop_invariant/run_closed_form (the while loop equals the closed form), cont_mono/stop_index_mono (a vector call runs at least the terms of every scalar call), vector_is_scalar_plus_tail, tail_bound, elementwise_independent, zero-rate entries exactly 0, joint_def; negative witness for the pinned min rule. Tie: Float instance of the same definition + independent log-space reference vs poisson_entropy on a dense grid [0,500], tiny rates, mixed vectors/matrices; joint entropy exact.",
             "Absolute accuracy 1e-9 against the infinite series (c13_accuracy_partial) is checked numerically only (needs Poisson tail bounds and SciPy's pmf error).",
@@ -114,7 +114,7 @@ def main():
         ],
         "checks": checks,
         "not_applicable": na,
-        "notes": "See DESIGN.md. known_findings.json lists genuine defects (open/fixed; three fix: commits in /repo). Exit codes: 0 held, 1 VIOLATION, 2 infrastructure failure.",
+        "notes": "See DESIGN.md. known_findings.json lists genuine defects (open/fixed; four fix: commits in /repo). Exit codes: 0 held, 1 VIOLATION, 2 infrastructure failure.",
     }
     (VERIF / "MANIFEST.json").write_text(json.dumps(man, indent=1) + "\n")
     print("claimed:", [c["property_id"] for c in checks])
